@@ -129,29 +129,29 @@ func (s *stmt) class() string {
 
 var corpus = []stmt{
 	// SELECT, one clause: every driver-call kind of simpleFetch / simpleExist
-	{ID: "Q01", Kind: "select", Text: `select ?o from ?g where {/u<joe> "parent_of"@[] ?o};`},                                  // SP  Objects
-	{ID: "Q02", Kind: "select", Text: `select ?s from ?g where {?s "parent_of"@[] /u<zoe>};`},                                  // PO  Subjects
-	{ID: "Q03", Kind: "select", Text: `select ?p from ?g where {/u<joe> ?p /u<mary>};`},                                        // SO  PredicatesForSubjectAndObject
-	{ID: "Q04", Kind: "select", Text: `select ?p, ?o from ?g where {/u<mary> ?p ?o};`},                                         // S   TriplesForSubject
-	{ID: "Q05", Kind: "select", Text: `select ?s, ?o from ?g where {?s "height"@[] ?o};`},                                      // P   TriplesForPredicate
-	{ID: "Q06", Kind: "select", Text: `select ?s, ?p from ?g where {?s ?p /u<zoe>};`},                                          // O   TriplesForObject
-	{ID: "Q07", Kind: "select", Text: `select ?s, ?p, ?o from ?h where {?s ?p ?o};`},                                           // ?s ?p ?o  Triples
-	{ID: "Q08", Kind: "select", Text: `select ?s, ?p, ?o from ?g where {?s ?p ?o} limit "2"^^type:int64;`},                     // Triples with the LIMIT handed to the driver
-	{ID: "Q09", Kind: "select", Text: `select ?x from ?g where {/u<joe> as ?x "parent_of"@[] /u<mary>};`},                      // fully specified: Exist
-	{ID: "Q10", Kind: "select", Text: `select ?o, ?t from ?g where {/u<joe> "bought"@[?t] ?o};`},                               // anchor binding: TriplesForSubject + filtering
-	{ID: "Q11", Kind: "select", Text: `select ?s, ?o from ?g, ?h where {?s "height"@[] ?o};`, Chan: 1},                         // two input graphs, buffered result channel
-	{ID: "Q12", Kind: "select", Text: `select ?o from ?g where {/u<joe> "parent_of"@[] ?o} limit "1"^^type:int64;`, Chan: 2},   // LIMIT applied by the planner
-	{ID: "Q13", Kind: "select", Text: `select ?s, ?o from ?g where {?s "parent_of"@[] ?o} order by ?o desc;`},                  // ORDER BY
-	{ID: "Q14", Kind: "select", Text: `select ?s, count(?o) as ?n from ?g where {?s "parent_of"@[] ?o} group by ?s;`},          // GROUP BY
-	{ID: "Q15", Kind: "select", Text: `select ?s, ?o from ?g where {?s "height"@[] ?o} having ?o > "160"^^type:int64;`},        // HAVING
+	{ID: "Q01", Kind: "select", Text: `select ?o from ?g where {/u<joe> "parent_of"@[] ?o};`},                                // SP  Objects
+	{ID: "Q02", Kind: "select", Text: `select ?s from ?g where {?s "parent_of"@[] /u<zoe>};`},                                // PO  Subjects
+	{ID: "Q03", Kind: "select", Text: `select ?p from ?g where {/u<joe> ?p /u<mary>};`},                                      // SO  PredicatesForSubjectAndObject
+	{ID: "Q04", Kind: "select", Text: `select ?p, ?o from ?g where {/u<mary> ?p ?o};`},                                       // S   TriplesForSubject
+	{ID: "Q05", Kind: "select", Text: `select ?s, ?o from ?g where {?s "height"@[] ?o};`},                                    // P   TriplesForPredicate
+	{ID: "Q06", Kind: "select", Text: `select ?s, ?p from ?g where {?s ?p /u<zoe>};`},                                        // O   TriplesForObject
+	{ID: "Q07", Kind: "select", Text: `select ?s, ?p, ?o from ?h where {?s ?p ?o};`},                                         // ?s ?p ?o  Triples
+	{ID: "Q08", Kind: "select", Text: `select ?s, ?p, ?o from ?g where {?s ?p ?o} limit "2"^^type:int64;`},                   // Triples with the LIMIT handed to the driver
+	{ID: "Q09", Kind: "select", Text: `select ?x from ?g where {/u<joe> as ?x "parent_of"@[] /u<mary>};`},                    // fully specified: Exist
+	{ID: "Q10", Kind: "select", Text: `select ?o, ?t from ?g where {/u<joe> "bought"@[?t] ?o};`},                             // anchor binding: TriplesForSubject + filtering
+	{ID: "Q11", Kind: "select", Text: `select ?s, ?o from ?g, ?h where {?s "height"@[] ?o};`, Chan: 1},                       // two input graphs, buffered result channel
+	{ID: "Q12", Kind: "select", Text: `select ?o from ?g where {/u<joe> "parent_of"@[] ?o} limit "1"^^type:int64;`, Chan: 2}, // LIMIT applied by the planner
+	{ID: "Q13", Kind: "select", Text: `select ?s, ?o from ?g where {?s "parent_of"@[] ?o} order by ?o desc;`},                // ORDER BY
+	{ID: "Q14", Kind: "select", Text: `select ?s, count(?o) as ?n from ?g where {?s "parent_of"@[] ?o} group by ?s;`},        // GROUP BY
+	{ID: "Q15", Kind: "select", Text: `select ?s, ?o from ?g where {?s "height"@[] ?o} having ?o > "160"^^type:int64;`},      // HAVING
 	// SELECT, two and three clauses: specifyClauseWithTable (errgroup + semaphore), joins
 	{ID: "Q16", Kind: "select", Text: `select ?o, ?c from ?g where {/u<joe> "parent_of"@[] ?o . ?o "parent_of"@[] ?c};`},
 	{ID: "Q17", Kind: "select", Text: `select ?o, ?c, ?z from ?g where {/u<joe> "parent_of"@[] ?o . ?o "parent_of"@[] ?c . ?c "parent_of"@[] ?z};`},
 	{ID: "Q18", Kind: "select", Text: `select ?s, ?p, ?o from ?g where {?s "height"@[] ?n . ?s ?p ?o};`},
-	{ID: "Q19", Kind: "select", Text: `select ?o, ?n from ?g where {/u<joe> "parent_of"@[] ?o . ?x "height"@[] ?n};`},                    // disjoint bindings: dot product
-	{ID: "Q20", Kind: "select", Text: `select ?o from ?g where {/u<joe> "parent_of"@[] ?o . /u<mary> "parent_of"@[] /u<amy>};`},           // Exist as a later clause
-	{ID: "Q21", Kind: "select", Text: `select ?o, ?n from ?g where {/u<joe> "parent_of"@[] ?o . optional {?o "height"@[] ?n}};`},          // OPTIONAL sharing a binding
-	{ID: "Q22", Kind: "select", Text: `select ?o, ?n from ?g where {/u<joe> "parent_of"@[] ?o . optional {/u<zoe> "height"@[] ?n}};`},     // OPTIONAL, disjoint
+	{ID: "Q19", Kind: "select", Text: `select ?o, ?n from ?g where {/u<joe> "parent_of"@[] ?o . ?x "height"@[] ?n};`},                 // disjoint bindings: dot product
+	{ID: "Q20", Kind: "select", Text: `select ?o from ?g where {/u<joe> "parent_of"@[] ?o . /u<mary> "parent_of"@[] /u<amy>};`},       // Exist as a later clause
+	{ID: "Q21", Kind: "select", Text: `select ?o, ?n from ?g where {/u<joe> "parent_of"@[] ?o . optional {?o "height"@[] ?n}};`},      // OPTIONAL sharing a binding
+	{ID: "Q22", Kind: "select", Text: `select ?o, ?n from ?g where {/u<joe> "parent_of"@[] ?o . optional {/u<zoe> "height"@[] ?n}};`}, // OPTIONAL, disjoint
 	{ID: "Q23", Kind: "select", Text: `select ?o, count(?c) as ?n from ?g where {/u<joe> "parent_of"@[] ?o . ?o "parent_of"@[] ?c} group by ?o order by ?o having ?n > "0"^^type:int64 limit "5"^^type:int64;`},
 	// the same two-clause query through the memoization layer (miss path, context cancellation by the errgroup)
 	{ID: "Q24", Kind: "select", Text: `select ?s, ?p, ?o from ?g where {?s "height"@[] ?n . ?s ?p ?o};`, Memo: true},
@@ -245,6 +245,13 @@ type hx struct {
 	err           error
 	returned      bool
 	firedAtReturn int
+
+	// memoized SELECTs: the same statement executed once more, without faults,
+	// on the same store after the faulted execution returned
+	again     bool
+	againRows []string
+	againErr  error
+	wantRows  []string
 }
 
 func (h *hx) enter(base, kind string) (name, mode string) {
@@ -320,7 +327,7 @@ func stream[T any](h *hx, base, kind string, out chan<- T, call func(chan<- T) e
 	name, mode := h.enter(base, kind)
 	if mode == "before" {
 		h.log(name, kind, -1)
-		vrt.Close(out)
+		closeThenReturn(out)
 		return h.fire(name, mode)
 	}
 	buf := vrt.MakeChan[T](snapshotCap)
@@ -334,7 +341,7 @@ func stream[T any](h *hx, base, kind string, out chan<- T, call func(chan<- T) e
 	}
 	h.log(name, kind, len(elems))
 	if err != nil {
-		vrt.Close(out)
+		closeThenReturn(out)
 		return err
 	}
 	n := len(elems)
@@ -350,8 +357,16 @@ func stream[T any](h *hx, base, kind string, out chan<- T, call func(chan<- T) e
 	for _, e := range elems[:n] {
 		vrt.Send(out, e)
 	}
-	vrt.Close(out)
+	closeThenReturn(out)
 	return err
+}
+
+// closeThenReturn closes the result channel; the call itself returns (with its
+// error) only later: a scheduling point separates the two, so a consumer that
+// has seen the channel closed can run before the driver call has returned.
+func closeThenReturn[T any](out chan<- T) {
+	vrt.Close(out)
+	vrt.Yield()
 }
 
 type fGraph struct {
@@ -498,6 +513,11 @@ func mkExec(sc *stmt, faults []fault, keep **hx) func() explore.Exec {
 			*keep = h
 		}
 		stm, perr := parse(sc.Text) // natively, before the controlled execution starts
+		var stm2 *semantic.Statement
+		if sc.Memo && sc.Kind == "select" && len(faults) > 0 && perr == nil {
+			stm2, _ = parse(sc.Text)
+			h.wantRows = faultFreeRows(sc)
+		}
 		return explore.Exec{
 			Body: func() {
 				if perr != nil {
@@ -518,10 +538,69 @@ func mkExec(sc *stmt, faults []fault, keep **hx) func() explore.Exec {
 				h.returned = true
 				h.firedAtReturn = len(h.fired)
 				vrt.MarkReturned()
+				if stm2 != nil {
+					// The driver has recovered: no call fails any more. The memoizing layer
+					// lives as long as the store, so what it kept from the failed calls is
+					// what the next statement is answered with.
+					h.plan = nil
+					h.again = true
+					pln2, err := planner.New(ctx, st, stm2, sc.Chan, sc.Bulk, nil)
+					if err != nil {
+						h.againErr = err
+						return
+					}
+					t2, err := pln2.Execute(ctx)
+					h.againErr = err
+					if err == nil {
+						h.againRows = canonRows(t2)
+					}
+				}
 			},
 			Check: func(out *vrt.Outcome) ([]explore.Verdict, string) { return h.check(faults, out) },
 		}
 	}
+}
+
+// canonRows renders a table as a sorted list of rows.
+func canonRows(t *table.Table) []string {
+	if t == nil {
+		return nil
+	}
+	bs := append([]string(nil), t.Bindings()...)
+	sort.Strings(bs)
+	var rows []string
+	for _, r := range t.Rows() {
+		var cs []string
+		for _, b := range bs {
+			c := "<nil>"
+			if r[b] != nil {
+				c = r[b].String()
+			}
+			cs = append(cs, b+"="+c)
+		}
+		rows = append(rows, strings.Join(cs, " "))
+	}
+	sort.Strings(rows)
+	return rows
+}
+
+var wantCache = map[string][]string{}
+
+// faultFreeRows is the result of the statement without faults (one controlled
+// run on the default schedule per process, made between executions).
+func faultFreeRows(sc *stmt) []string {
+	if rows, ok := wantCache[sc.ID]; ok {
+		return rows
+	}
+	var h *hx
+	ex := mkExec(sc, nil, &h)()
+	vrt.Run(sc.cfg(), vrt.DefaultChooser{}, ex.Body)
+	rows := canonRows(h.tbl)
+	if h.err != nil || h.tbl == nil {
+		rows = []string{"<fault-free run failed: " + fmt.Sprint(h.err) + ">"}
+	}
+	wantCache[sc.ID] = rows
+	return rows
 }
 
 // faultKind is the part of the input class contributed by one planned fault.
@@ -547,8 +626,16 @@ func faultKind(f fault) string {
 	return k + "-after-some-elements"
 }
 
-// classOf is the input classifier: statement kind (+ tags) and the kinds of the
-// planned faults — computed from the case alone.
+// classOf is the input classifier, computed from the case alone: a feature list
+// (see common.matchKnown, "has:") of two entries,
+//
+//	<statement kind>-statement[(tags)]:<set of fault kinds planned>      e.g. construct-statement:write-fault
+//	<statement family>[(tags)]:<fault family>                            e.g. construct-or-deconstruct:graph-handle-or-write-faults
+//
+// the second being the coarser view: CONSTRUCT and DECONSTRUCT are one
+// executor, and the fault kinds are grouped by the planner code that makes the
+// call (update(): Store.Graph + AddTriples/RemoveTriples; pattern matching:
+// streamed reads + Exist; SHOW: GraphNames; CREATE/DROP: NewGraph/DeleteGraph).
 func classOf(sc *stmt, faults []fault) string {
 	if len(faults) == 0 {
 		return sc.class() + ":no-fault"
@@ -556,14 +643,42 @@ func classOf(sc *stmt, faults []fault) string {
 	// the set of fault kinds planned (a pair of two write faults has the class of one)
 	seen := map[string]bool{}
 	var ks []string
+	fam := map[string]bool{}
 	for _, f := range faults {
-		if k := faultKind(f); !seen[k] {
+		k := faultKind(f)
+		if !seen[k] {
 			seen[k] = true
 			ks = append(ks, k)
 		}
+		switch {
+		case k == "graph-handle-fault" || k == "write-fault":
+			fam["graph-handle-or-write-faults"] = true
+		case strings.HasPrefix(k, "read-fault") || k == "exist-fault":
+			fam["read-faults"] = true
+		case strings.HasPrefix(k, "graphnames-fault"):
+			fam["graphnames-fault"] = true
+		default:
+			fam["newgraph-or-deletegraph-faults"] = true
+		}
 	}
 	sort.Strings(ks)
-	return sc.class() + ":" + strings.Join(ks, "+")
+	family := sc.Kind
+	if sc.Kind == "construct" || sc.Kind == "deconstruct" {
+		family = "construct-or-deconstruct"
+	}
+	if sc.Tag != "" {
+		family += "(" + sc.Tag + ")"
+	}
+	if sc.Memo {
+		family += "(memoized)"
+	}
+	ff := "mixed-faults"
+	if len(fam) == 1 {
+		for k := range fam {
+			ff = k
+		}
+	}
+	return sc.class() + ":" + strings.Join(ks, "+") + "," + family + ":" + ff
 }
 
 var siteRe = regexp.MustCompile(`^([A-Za-z0-9_.()*]+)`)
@@ -641,6 +756,19 @@ func (h *hx) check(faults []fault, out *vrt.Outcome) ([]explore.Verdict, string)
 		}
 		vs = append(vs, explore.Verdict{Class: class, Shape: shape,
 			Detail: fmt.Sprintf("%s\nExecute returned %s although %d driver call(s) had returned an error before it returned: %v", h.describe(faults), what, h.firedAtReturn, h.fired[:h.firedAtReturn])})
+	}
+	if h.again && len(h.fired) > 0 {
+		got := "error: " + fmt.Sprint(h.againErr)
+		if h.againErr == nil {
+			got = strings.Join(h.againRows, " | ")
+		}
+		if want := strings.Join(h.wantRows, " | "); got != want {
+			vs = append(vs, explore.Verdict{Class: class, Shape: "later-statement-answered-from-partial-results",
+				Detail: fmt.Sprintf("%s\nfaults fired: %v; Execute returned %s.\nThe same statement executed again on the same store, now without any failing call, returns\n  %s\ninstead of\n  %s", h.describe(faults), h.fired, ret, got, want)})
+			oc += " again=differs"
+		} else {
+			oc += " again=same"
+		}
 	}
 	return vs, oc
 }
